@@ -47,13 +47,13 @@ def collect_cases(ctx, vh):
         cases.extend(cs)
 
     if tier == "quick":
-        add(*_tlc_gen(ctx, "gen-mesh3", "StlGenMeshQuick.cfg"), "meshgen_nv3")
+        add(*_tlc_gen(ctx, "gen-mesh3", "StlGenMeshQuick.cfg"), "meshgen_nv034")
         add(*_tlc_gen(ctx, "gen-mesh4", "StlGenMesh4Quick.cfg"), "meshgen_nv45")
         add(*_tlc_gen(ctx, "gen-meshsim", "StlGenMeshSim.cfg", simulate="num=30", depth=12), "meshsim")
         add(*_tlc_gen(ctx, "gen-recs", "StlGenRecs.cfg"), "recsgen")
     else:
         add(*_tlc_gen(ctx, "gen-mesh", "StlGenMeshBig.cfg"), "meshgen")
-        add(*_tlc_gen(ctx, "gen-meshsim", "StlGenMeshSim.cfg", simulate="num=3000", depth=12), "meshsim")
+        add(*_tlc_gen(ctx, "gen-meshsim", "StlGenMeshSim.cfg", simulate="num=5000", depth=12), "meshsim")
         add(*_tlc_gen(ctx, "gen-recs", "StlGenRecs5.cfg"), "recsgen")
     seen, uniq = set(), []
     for c in cases:
@@ -63,7 +63,7 @@ def collect_cases(ctx, vh):
             uniq.append(c)
     cases = uniq
     d = ctx.scratch("rnd")
-    nsw, nsr, maxtris = (120, 120, 60) if tier == "quick" else (12000, 12000, 200)
+    nsw, nsr, maxtris = (120, 120, 60) if tier == "quick" else (20000, 20000, 200)
     core.run_vh(vh, ["stl-random", "-out", os.path.join(d, "r.ndjson"), "-seed", str(seed),
                      "-nsw", str(nsw), "-nsr", str(nsr), "-maxtris", str(maxtris)])
     rnd = core.read_ndjson(os.path.join(d, "r.ndjson"))
@@ -177,11 +177,11 @@ def run_family(ctx, prefix="C07"):
     ctx.extra["cases_by_kind"] = {k: sum(1 for c in cases if c["k"] == k) for k in ("sw", "sr")}
     ctx.extra["max_triangles"] = max([c["seeded"]["ntris"] for c in cases if c.get("seeded")] + [0])
     ctx.nontrivial = sum(1 for c in cases if nontrivial(c))
-    ctx.rule = ("cases: TLC BFS of StlGen (every index pattern of <=2 triangles over 3%s vertices, with/without normals; "
+    ctx.rule = ("cases: TLC BFS of StlGen (every index pattern of <=2 triangles over 3,4%s vertices, with/without normals; "
                 "every list of <=%d records from 6 templates), TLC -simulate walks (4 triangles), seeded recorder "
                 "(arbitrary floats, up to %d triangles); distinct by mesh / record list; non-trivial: >=1 triangle and "
                 "a non-identity index pattern, or >=1 record"
-                % ("" if ctx.tier == "quick" else "..5", 3 if ctx.tier == "quick" else 5, ctx.extra["max_triangles"]))
+                % ("" if ctx.tier == "quick" else ",5", 3 if ctx.tier == "quick" else 5, ctx.extra["max_triangles"]))
     for c in (cases[5], cases[-1]):
         ctx.sample({"k": c["k"], "tag": c.get("tag"),
                     "shape": c.get("seeded") or (c["mesh"]["idx"] if c["k"] == "sw" else [r["n"] for r in c["gen"]])})
